@@ -122,7 +122,7 @@ def runRef (j : Json) : Except String Json := do
     | "ignore" => pure Writable.ignore | "yes" => pure Writable.yes | "no" => pure Writable.no
     | s => throw s!"bad writable {s}"
   let ops ← (← afld j "ops").mapM parseRefOp
-  let start : RefState := ⟨Flatland.C04.blankState, .unresolved⟩
+  let start : RefState := ⟨Flatland.C04.blankState⟩
   let steps := runOps (fun (s : RefState) o => match s.step E k w o with
       | .ok (s', ret, rd) =>
         .ok (s', obj [("exc", Json.null), ("ret", retJson ret),
@@ -132,12 +132,41 @@ def runRef (j : Json) : Except String Json := do
       | .error (.scalar e) => .error (raiseName e)) excObj start ops []
   return obj [("steps", Json.arr steps.toArray)]
 
+def parseRefListOp (j : Json) : Except String RefListOp := do
+  match (← sfld j "op") with
+  | "lset" => return .listSet (← listOf parseNative (← fld j "xs"))
+  | "insertfront" => return .insertFront (← parseNative (← fld j "x"))
+  | "delfront" => return .deleteFront
+  | "member" => return .memberSet (← nfld j "i") (← parseNative (← fld j "x"))
+  | "read" => return .read
+  | "rset" => return .refSet (← parseNative (← fld j "x"))
+  | o => throw s!"bad reflist op {o}"
+
+def runRefList (j : Json) : Except String Json := do
+  let E ← envOf j
+  let k ← parseKind (← fld j "kind")
+  let w ← match (← sfld j "writable") with
+    | "ignore" => pure Writable.ignore | "yes" => pure Writable.yes | "no" => pure Writable.no
+    | s => throw s!"bad writable {s}"
+  let ops ← (← afld j "ops").mapM parseRefListOp
+  let steps := runOps (fun (s : List SState) o => match refListStep E k w s o with
+      | .ok (s', ret, rd) =>
+        .ok (s', obj [("exc", Json.null), ("ret", retJson ret),
+                      ("read", match rd with | some (v, u) => Json.arr #[ofNative v, ofText u] | none => Json.null),
+                      ("members", membersJson s')])
+      | .error .typeError => .error "TypeError"
+      | .error .lookupError => .error "LookupError"
+      | .error .indexError => .error "IndexError"
+      | .error (.scalar e) => .error (raiseName e)) excObj [] ops []
+  return obj [("steps", Json.arr steps.toArray)]
+
 def run (j : Json) : Except String Json := do
   match (← sfld j "sub") with
   | "date" => runDate j
   | "joined" => runJoined j
   | "multi" => runMulti j
   | "ref" => runRef j
+  | "reflist" => runRefList j
   | m => throw s!"bad sub {m}"
 
 end Flatland.Run.C18
